@@ -97,6 +97,7 @@ pub fn tracegen_only(prop: &str, seed: u64, runs: usize, only: Option<usize>) ->
             "C07" => width_run(prop, run, s),
             "C08" => expr_run(prop, run, s),
             "C10" => error_run(prop, run, s),
+            w if w.starts_with("scale-") => scale_run(prop, run, s),
             _ => panic!("no trace workload for {prop}"),
         };
         out.extend(lines);
@@ -975,5 +976,293 @@ fn changed_run(prop: &str, run: usize, seed: u64) -> Vec<J> {
     let mut spec = policy_for(&test, &opt, seed, &mut rng, 8);
     spec.numeric.clear(); // r may be Z: the virtual signal then fails after the call
     let cfg = RunCfg { run, prop: prop.to_string(), own_write: rng.gen_bool(0.5), max_rows: 60, rng_seed: seed, after_none: 0, cfg_note: json!({"policy": format!("{:?}", spec)}) };
+    trace_run(&Prepared { test, printed, layout }, &cfg, make_policy(spec))
+}
+
+// ---------------------------------------------------------------------------------------------
+// scale: the same behaviours at sizes past the usual machine-word and table boundaries (more than 8 X entries, counters past
+// 255, nesting past 8, more than 64 signals / variables / columns, hundreds of lines, draws and calls). The specification is
+// the same; only the instances are bigger. `wl` is "scale-<family>[+<family>...]"; run k uses family (k-1) mod n.
+
+fn scale_run(wl: &str, run: usize, seed: u64) -> Vec<J> {
+    let fams: Vec<&str> = wl["scale-".len()..].split('+').collect();
+    let fam = fams[(run - 1) % fams.len()];
+    let variant = (run - 1) / fams.len();
+    let mut rng = StdRng::seed_from_u64(seed);
+    let mut id = 0usize;
+    let mut row = |entries: Vec<Entry>| {
+        id += 1;
+        Stmt::Row { id, entries }
+    };
+    let names = |v: &[&str]| -> Vec<String> { v.iter().map(|s| s.to_string()).collect() };
+    let mut opt = Opt::default();
+    let mut layout = choose_layout(Lay::Mixed, seed, &mut rng);
+    let mut max_rows = 400;
+    let mut fault: Option<(usize, Fault)> = None;
+    let mut rng_seed = seed;
+    let (header, supplied, prog): (Vec<String>, Vec<Sig>, Vec<Stmt>) = match fam {
+        "manyx" => {
+            // 8..10 don't-care inputs in one row (256..1024 assignments), once together with a clock column
+            let k = 8 + variant % 3;
+            let with_c = k == 8;
+            let m = k + 2;
+            let mut supplied: Vec<Sig> = (0..m).map(|i| Sig::input(&format!("I{i}"), if i % 4 == 3 { 2 } else { 1 }, Val::N(0))).collect();
+            supplied.push(Sig::output("Q", 4));
+            supplied.push(Sig::output("R", 1));
+            let mut header: Vec<String> = (0..m).map(|i| format!("I{i}")).collect();
+            header.shuffle(&mut rng);
+            header.insert(rng.gen_range(0..=m), "Q".into());
+            let mut cols: Vec<usize> = (0..header.len()).filter(|&c| header[c] != "Q").collect();
+            cols.shuffle(&mut rng);
+            let mut es: Vec<Entry> = header.iter().map(|h| if h == "Q" { Entry::X } else { Entry::Num(1) }).collect();
+            for &c in cols.iter().take(k) {
+                es[c] = Entry::X;
+            }
+            if with_c {
+                es[cols[k]] = Entry::C;
+            }
+            let mut last: Vec<Entry> = header.iter().map(|_| Entry::Num(0)).collect();
+            last[header.iter().position(|h| h == "Q").unwrap()] = Entry::Num(3);
+            max_rows = 3300;
+            (header, supplied, vec![row(es), row(last)])
+        }
+        "longloop" => {
+            // counters and row counts past 255 (and the device called more than 256 times)
+            let n = 250 + rng.gen_range(0..120) as i64;
+            let supplied = vec![Sig::input("A", 8, Val::N(0)), Sig::input("B", 8, Val::N(0)), Sig::input("S", 24, Val::N(0)), Sig::output("Q", 16)];
+            let header = names(&["A", "B", "S", "Q"]);
+            let body = if variant % 2 == 0 {
+                vec![
+                    Stmt::Let { name: "s".into(), e: Expr::bin("+", Expr::id("s"), Expr::id("i")) },
+                    row(vec![Entry::Expr(Expr::id("i")), Entry::Expr(Expr::bin(">>", Expr::id("i"), Expr::num(8))), Entry::Expr(Expr::id("s")), Entry::X]),
+                ]
+            } else {
+                vec![Stmt::Loop {
+                    var: "j".into(),
+                    max: Expr::num(17 + (variant % 3) as i64),
+                    body: vec![row(vec![Entry::Expr(Expr::id("i")), Entry::Expr(Expr::id("j")), Entry::Expr(Expr::bin("+", Expr::bin("*", Expr::id("i"), Expr::num(100)), Expr::id("j"))), Entry::X])],
+                }]
+            };
+            let bound = if variant % 2 == 0 { n } else { 17 };
+            let prog = vec![
+                Stmt::Let { name: "s".into(), e: Expr::num(0) },
+                Stmt::Loop { var: "i".into(), max: Expr::num(bound), body },
+                row(vec![Entry::Num(1), Entry::Num(2), Entry::Expr(Expr::id("s")), Entry::X]),
+            ];
+            max_rows = 500;
+            (header, supplied, prog)
+        }
+        "deepnest" => {
+            // 7..12 nested loops; the same name rebound at every level, rows on the way in and on the way out
+            let d = 7 + variant % 6;
+            let supplied = vec![Sig::input("A", 16, Val::N(0)), Sig::input("B", 16, Val::N(0)), Sig::output("Q", 8)];
+            let header = names(&["A", "B", "Q"]);
+            fn nest(l: usize, d: usize, row: &mut dyn FnMut(Vec<Entry>) -> Stmt) -> Vec<Stmt> {
+                let sum = |l: usize| (0..=l).fold(Expr::id("x"), |a, k| Expr::bin("+", a, Expr::bin("<<", Expr::id(&format!("v{k}")), Expr::num(k as i64))));
+                let mut body = vec![];
+                if l % 2 == 0 {
+                    body.push(Stmt::Let { name: "x".into(), e: Expr::bin("+", Expr::id("x"), Expr::num(l as i64 + 1)) });
+                }
+                body.push(row(vec![Entry::Expr(Expr::id("x")), Entry::Expr(sum(l)), Entry::X]));
+                if l + 1 < d {
+                    body.extend(nest(l + 1, d, row));
+                }
+                if l % 3 == 0 {
+                    body.push(Stmt::Let { name: format!("y{l}"), e: Expr::id(&format!("v{l}")) });
+                }
+                body.push(row(vec![Entry::Expr(Expr::id("x")), Entry::Expr(Expr::id(&format!("v{l}"))), Entry::X]));
+                vec![Stmt::Loop { var: format!("v{l}"), max: Expr::num(if l < 2 { 2 } else { 1 }), body }]
+            }
+            let mut prog = vec![Stmt::Let { name: "x".into(), e: Expr::num(100) }];
+            prog.extend(nest(0, d, &mut row));
+            prog.push(row(vec![Entry::Expr(Expr::id("x")), Entry::Num(0), Entry::X]));
+            (header, supplied, prog)
+        }
+        "manysigs" => {
+            // more than 64 signals and columns; header and driver answers in orders of their own
+            let n = 66 + variant % 7;
+            let mut supplied = vec![];
+            for i in 0..n {
+                supplied.push(match i % 5 {
+                    0 | 1 => Sig::input(&format!("I{i}"), 1 + i % 7, Val::N((i % 2) as i64)),
+                    2 | 3 => Sig::output(&format!("O{i}"), 1 + i % 9),
+                    _ => Sig::bidir(&format!("D{i}"), 4, if i % 2 == 0 { Val::Z } else { Val::N(5) }),
+                });
+            }
+            supplied.shuffle(&mut rng);
+            let mut header = vec![];
+            for s in &supplied {
+                if rng.gen_bool(0.9) {
+                    header.push(s.name.clone());
+                }
+                if s.dir == Dir::Bidir && rng.gen_bool(0.7) {
+                    header.push(format!("{}_out", s.name));
+                }
+            }
+            header.shuffle(&mut rng);
+            let mut prog = vec![];
+            for r in 0..4 {
+                let es: Vec<Entry> = header
+                    .iter()
+                    .enumerate()
+                    .map(|(c, h)| {
+                        let sg = supplied.iter().find(|s| &s.name == h);
+                        match sg {
+                            Some(s) if s.is_in() => {
+                                if s.dir == Dir::Bidir && (c + r) % 3 == 0 {
+                                    Entry::Z
+                                } else if (c + r) % 11 == 0 {
+                                    Entry::Num(((c * 7 + r * 3) % 200) as i64)
+                                } else {
+                                    Entry::Num((c % 2) as i64)
+                                }
+                            }
+                            _ => match (c + r) % 4 {
+                                0 => Entry::X,
+                                1 => Entry::Z,
+                                _ => Entry::Num(((c + r) % 16) as i64),
+                            },
+                        }
+                    })
+                    .collect();
+                prog.push(row(es));
+            }
+            opt.layouts = LayoutMode::Subset;
+            opt.mode = ValMode::InWidth;
+            opt.p_zx = 0.1;
+            (header, supplied, prog)
+        }
+        "manyvars" => {
+            // more than 64 variables in scope, all of them shadowed inside a loop and uncovered after it
+            let n = 66 + variant % 9;
+            let supplied = vec![Sig::input("A", 32, Val::N(0)), Sig::input("B", 32, Val::N(0)), Sig::output("Q", 8)];
+            let header = names(&["A", "B", "Q"]);
+            let mut prog = vec![];
+            for k in 0..n {
+                prog.push(Stmt::Let { name: format!("a{k}"), e: Expr::num((k * 3 + 1) as i64) });
+            }
+            prog.push(row(vec![Entry::Expr(Expr::bin("+", Expr::id("a0"), Expr::id(&format!("a{}", n - 1)))), Entry::Expr(Expr::id("a33")), Entry::X]));
+            let mut body = vec![];
+            for k in (0..n).rev() {
+                body.push(Stmt::Let { name: format!("a{k}"), e: Expr::bin("+", Expr::bin("*", Expr::id("i"), Expr::num(1000)), Expr::num(k as i64)) });
+                if k % 29 == 0 {
+                    body.push(row(vec![Entry::Expr(Expr::id(&format!("a{k}"))), Entry::Expr(Expr::id(&format!("a{}", (k + 1) % n))), Entry::X]));
+                }
+            }
+            prog.push(Stmt::Loop { var: "i".into(), max: Expr::num(2), body });
+            prog.push(row(vec![Entry::Expr(Expr::id(&format!("a{}", n - 1))), Entry::Expr(Expr::id("a64")), Entry::X]));
+            (header, supplied, prog)
+        }
+        "manylines" => {
+            // several hundred blank and comment lines: line numbers past 255
+            let supplied = vec![Sig::input("A", 8, Val::N(0)), Sig::output("Q", 8)];
+            let header = names(&["A", "Q"]);
+            let mut prog = vec![];
+            for r in 0..20 {
+                prog.push(row(vec![Entry::Num(r), Entry::X]));
+            }
+            prog.push(Stmt::Loop { var: "i".into(), max: Expr::num(2), body: vec![row(vec![Entry::Expr(Expr::id("i")), Entry::X]), Stmt::Repeat { max: Expr::num(2), id: 9001, entries: vec![Entry::Num(7), Entry::X] }] });
+            for r in 0..10 {
+                prog.push(row(vec![Entry::Num(r + 30), Entry::Num(r)]));
+            }
+            layout = Layout { blank_p: 0.9, comment_line_p: 0.88, pre_blank: 30 + variant % 40, crlf: variant % 2 == 1, ..Layout::random(seed) };
+            (header, supplied, prog)
+        }
+        "manydraws" => {
+            // several hundred draws, and a restart of the generator after more than 256 of them
+            let n = 270 + rng.gen_range(0..60) as i64;
+            let supplied = vec![Sig::input("A", 16, Val::N(0)), Sig::input("B", 40, Val::N(0)), Sig::output("Q", 8)];
+            let header = names(&["A", "B", "Q"]);
+            let draw = |b: i64| Expr::call("random", vec![Expr::num(b)]);
+            let prog = vec![
+                Stmt::Loop { var: "i".into(), max: Expr::num(n), body: vec![row(vec![Entry::Expr(draw(1000)), Entry::Expr(draw(1 << 39)), Entry::X])] },
+                Stmt::Reset,
+                Stmt::Loop { var: "i".into(), max: Expr::num(40), body: vec![row(vec![Entry::Expr(draw(1000)), Entry::Expr(draw(1 << 39)), Entry::X])] },
+            ];
+            rng_seed = seed;
+            max_rows = 500;
+            (header, supplied, prog)
+        }
+        "manyvirt" => {
+            // a dozen and more virtual signals, declared in an order unlike the header's
+            let n = 12 + variant % 9;
+            let supplied = vec![Sig::input("A", 8, Val::N(0)), Sig::output("p", 16), Sig::output("q", 16), Sig::bidir("d", 8, Val::Z)];
+            let mut header = names(&["A", "p", "q", "d_out"]);
+            let mut prog = vec![];
+            let mut order: Vec<usize> = (0..n).collect();
+            order.shuffle(&mut rng);
+            for &k in &order {
+                let e = match k % 4 {
+                    0 => Expr::bin("+", Expr::id("p"), Expr::num(k as i64)),
+                    1 => Expr::bin("*", Expr::id("q"), Expr::num(k as i64 + 1)),
+                    2 => Expr::bin("^", Expr::id("p"), Expr::id("q")),
+                    _ => Expr::bin("-", Expr::id("d"), Expr::num(k as i64)),
+                };
+                prog.push(Stmt::Declare { name: format!("V{k}"), e });
+                if rng.gen_bool(0.7) {
+                    header.push(format!("V{k}"));
+                }
+            }
+            header[1..].shuffle(&mut rng);
+            for r in 0..4i64 {
+                let es: Vec<Entry> = header.iter().enumerate().map(|(c, h)| if h == "A" { Entry::Num(r) } else if (c as i64 + r) % 3 == 0 { Entry::X } else { Entry::Num(((c as i64) * 5 + r) % 40) }).collect();
+                prog.push(row(es));
+            }
+            opt.layouts = LayoutMode::Subset;
+            opt.mode = ValMode::InWidth;
+            (header, supplied, prog)
+        }
+        "latefault" => {
+            // a driver error or a layout deviation at a call index past 256
+            let n = 300i64;
+            let supplied = vec![Sig::input("A", 16, Val::N(0)), Sig::output("p", 8), Sig::output("q", 8)];
+            let header = names(&["A", "p", "q"]);
+            let prog = vec![Stmt::Loop { var: "i".into(), max: Expr::num(n), body: vec![row(vec![Entry::Expr(Expr::id("i")), Entry::X, Entry::X])] }];
+            let at = 250 + rng.gen_range(0..40);
+            fault = Some((at, match variant % 4 { 0 => Fault::Error(rng.gen_range(1..1000)), 1 => Fault::Swap, 2 => Fault::Drop, _ => Fault::Duplicate }));
+            opt.mode = ValMode::InWidth;
+            max_rows = 400;
+            (header, supplied, prog)
+        }
+        "widerow" => {
+            // rows of 64 and more columns, produced by bits(64, e) and bits(63, e) next to ordinary entries
+            let supplied: Vec<Sig> = (0..66).map(|i| Sig::input(&format!("b{i}"), 1, Val::N(0))).chain(std::iter::once(Sig::output("Q", 8))).collect();
+            let mut header: Vec<String> = (0..66).map(|i| format!("b{i}")).collect();
+            header.push("Q".into());
+            let v = [0x8000_0000_0000_0001u64 as i64, 0x5555_AAAA_F0F0_0F0Fu64 as i64, -2, rng.gen::<i64>()];
+            let mut prog = vec![Stmt::Let { name: "w".into(), e: Gen::const_of(v[variant % 4]) }];
+            prog.push(row(vec![Entry::Num(1), Entry::Bits(64, Expr::id("w")), Entry::Num(1), Entry::X]));
+            prog.push(row(vec![Entry::Bits(63, Expr::id("w")), Entry::Num(0), Entry::Bits(2, Expr::num(2)), Entry::X]));
+            prog.push(row(vec![Entry::Bits(33, Expr::bin(">>", Expr::id("w"), Expr::num(3))), Entry::Bits(33, Expr::id("w")), Entry::X]));
+            (header, supplied, prog)
+        }
+        "longfeedback" => {
+            // the value read back is the latest one also after several hundred rows
+            let n = 260 + rng.gen_range(0..60) as i64;
+            let supplied = vec![Sig::input("A", 16, Val::N(0)), Sig::input("K", 1, Val::N(0)), Sig::output("p", 12), Sig::output("q", 12)];
+            let header = names(&["A", "K", "p"]);
+            let prog = vec![
+                Stmt::Loop { var: "i".into(), max: Expr::num(n), body: vec![row(vec![Entry::Expr(Expr::bin("+", Expr::id("p"), Expr::id("q"))), if variant % 2 == 0 { Entry::C } else { Entry::Num(0) }, Entry::X])] },
+                row(vec![Entry::Expr(Expr::id("q")), Entry::Num(1), Entry::X]),
+            ];
+            opt.mode = ValMode::InWidth;
+            max_rows = 1100;
+            (header, supplied, prog)
+        }
+        f => panic!("no scale family {f}"),
+    };
+    let test = Test { header, supplied, prog };
+    let printed = print_test(&test.header, &test.prog, &layout);
+    let mut spec = policy_for(&test, &opt, seed, &mut rng, 6);
+    if fam == "manysigs" || fam == "manyvirt" || fam == "latefault" || fam == "longfeedback" {
+        spec.mode = opt.mode;
+        if fam == "longfeedback" {
+            spec.numeric.clear();
+        }
+    }
+    if fault.is_some() {
+        spec.fault = fault;
+    }
+    let cfg = RunCfg { run, prop: wl.to_string(), own_write: rng.gen_bool(0.5), max_rows, rng_seed, after_none: 0, cfg_note: json!({"family": fam, "variant": variant}) };
     trace_run(&Prepared { test, printed, layout }, &cfg, make_policy(spec))
 }
